@@ -1,10 +1,10 @@
 (* C14 -- reported hydrogen bonds are exactly those meeting the stated criteria.
    Statements only, closed by [exact]; definitions in Hbond/Model.v, Hbond/KsModel.v, proofs in
    Hbond/Proofs.v, Hbond/KsProofs.v, Hbond/KsSpec.v, Hbond/CosR.v. *)
-From Coq Require Import List ZArith Bool Reals Sorting.Permutation.
+From Coq Require Import List ZArith QArith Bool Reals Lia Arith Sorting.Permutation.
 Import ListNotations.
-Require Import MD.Gen.HbondTables MD.Hbond.Model MD.Hbond.KsModel MD.Hbond.Run
-               MD.Hbond.Proofs MD.Hbond.KsProofs MD.Hbond.KsSpec MD.Hbond.CosR.
+Require Import MD.Gen.HbondTables MD.Gen.HbondFormulas MD.Hbond.Model MD.Hbond.KsModel MD.Hbond.Run
+               MD.Hbond.Proofs MD.Hbond.KsProofs MD.Hbond.KsSpec MD.Hbond.CosR MD.Hbond.KsFormula.
 Local Open Scope Z_scope.
 
 (* ---------------------------------------------------------------- candidate triplets *)
@@ -111,21 +111,84 @@ Theorem best_two_zero_init : forall calls : list call, (forall c, In c calls -> 
 Proof. exact init_zero_equiv. Qed.
 Print Assumptions best_two_zero_init.
 
+(* ---------------------------------------------------------------- Kabsch-Sander energy formula *)
+(* Gen/HbondFormulas.v is the translation of ks_donor_acceptor() of today's geometry.cpp (fail closed).
+   With the four inverse distances as free variables the translated expression IS the documented formula
+   E = 0.42 * 0.2 * 33.2 kcal nm/mol * (1/r_ON + 1/r_CH - 1/r_OH - 1/r_CN)      (identity over Q) *)
+Theorem ks_formula_is_documented : forall inv : ks_site -> ks_site -> Q,
+  (ks_energy_expr inv == (42 # 100) * (2 # 10) * (332 # 10) *
+                         (inv KS_N KS_O + inv KS_H KS_C - inv KS_H KS_O - inv KS_N KS_C))%Q.
+Proof. exact ks_formula_documented. Qed.
+Print Assumptions ks_formula_is_documented.
+
+(* the positions are N and H of the donor residue, C and O of the acceptor residue *)
+Theorem ks_sites_are_documented :
+  ks_site_source KS_N = (true, 0%nat) /\ ks_site_source KS_H = (true, 3%nat) /\
+  ks_site_source KS_C = (false, 1%nat) /\ ks_site_source KS_O = (false, 2%nat).
+Proof. exact ks_sites_documented. Qed.
+Print Assumptions ks_sites_are_documented.
+
+(* the term list the model evaluates is that expression, and the model's energy is the clamp of the sum
+   of these terms (each 1/distance and each product rounded down in 2^-44 fixed point) *)
+Theorem ks_model_terms_are_the_formula : forall inv : ks_site -> ks_site -> Q,
+  (terms_value inv (c_ks_terms gen_consts) == ks_energy_expr inv)%Q.
+Proof. exact ks_terms_are_the_expression. Qed.
+Print Assumptions ks_model_terms_are_the_formula.
+
+Theorem ks_model_energy_from_terms : forall K G xyz oob hs rs d a h,
+  nth d hs None = Some h ->
+  ks_energy_h K G xyz oob hs rs d a =
+  let rd := nth d rs (mkRes None None None None false) in
+  let ra := nth a rs (mkRes None None None None false) in
+  let site := fun s => match s with
+                       | KS_N => to_fx (at_idx xyz oob (r_n rd)) | KS_H => h
+                       | KS_C => to_fx (at_idx xyz oob (r_c ra)) | KS_O => to_fx (at_idx xyz oob (r_o ra))
+                       end in
+  option_map (ks_clamp K) (sum_terms (map (ks_term G site) (c_ks_terms K))).
+Proof. exact ks_energy_h_terms. Qed.
+Print Assumptions ks_model_energy_from_terms.
+
+(* the threshold test is the documented one: with the translated clamp (test and value -9.9) and cutoff,
+   "clamped energy < cutoff" holds iff E < -0.5; the floor never decides whether a bond exists.
+   (mdtraj has no minimal-distance guard such as DSSP's 0.5 A; it only clamps the energy.) *)
+Theorem ks_threshold_is_documented : forall e : Q,
+  (clampQ (q_of ks_clamp_test) (q_of ks_clamp_value) e < q_of ks_energy_cutoff <-> e < -1 # 2)%Q.
+Proof. exact ks_threshold_test_documented. Qed.
+Print Assumptions ks_threshold_is_documented.
+
+Theorem ks_clamp_never_decides : forall K e thr,
+  fst (c_ks_clamp_value K) * SC / snd (c_ks_clamp_value K) <= fst (c_ks_clamp_test K) * SC / snd (c_ks_clamp_test K) ->
+  fst (c_ks_clamp_test K) * SC / snd (c_ks_clamp_test K) <= thr ->
+  fst (c_ks_clamp_value K) * SC / snd (c_ks_clamp_value K) < thr ->
+  (ks_clamp K e <? thr) = (e <? thr).
+Proof. exact ks_clamp_Z_keeps_threshold. Qed.
+Print Assumptions ks_clamp_never_decides.
+
 (* ---------------------------------------------------------------- Kabsch-Sander pair loop *)
-(* PARTIAL (ks_spec).  Full statement: "for each frame exactly the CO(a) -> NH(d) pairs whose energy from
-   the documented formula, with the hydrogen placed as documented, is below -0.5 kcal/mol, best two per
-   donor".  Proved, for EVERY energy function E (total): the loop over residue pairs reports for donor d
-   the two lowest-energy acceptors, in order, among the acceptors a that are complete, different from d
-   and from d-1, with CA(d)-CA(a) closer than the prefilter, E d a below the threshold, d not a proline
-   and complete.  Not proved: that the fixed-point evaluation of the energy in the model equals the
-   documented formula (numerical; tied to mdtraj by the correspondence within 1e-3 kcal/mol). *)
-Theorem ks_spec_partial : forall p xyz rs (E : nat -> nat -> Z),
+(* for EVERY (total) energy function E: the loop over residue pairs reports for donor d the two
+   lowest-energy acceptors, in order, among the acceptors a that are complete, different from d and from
+   d-1, with CA(d)-CA(a) closer than the prefilter, E d a below the threshold, d not a proline and complete *)
+Theorem ks_spec_any_energy : forall p xyz rs (E : nat -> nat -> Z),
   ks_loop p empty_nan rs xyz (fun d a => Some (E d a)) =
   Some (map (fun d => slots_of (firstn 2 (ranked (map (fun a => (a, E d a))
                                                     (filter (eligible p xyz rs E d) (seq 0 (length rs)))))))
             (seq 0 (length rs))).
 Proof. exact ks_spec. Qed.
-Print Assumptions ks_spec_partial.
+Print Assumptions ks_spec_any_energy.
+
+(* ks_spec: the same for one frame of kabsch_sander with the model's own energy (frame_energy = the clamp
+   of the translated formula evaluated at the frame's N, H, C, O positions, hydrogen placed by
+   ks_assign_hydrogens), for every non-degenerate frame (no coinciding atoms).
+   What remains outside the theorems: frame_energy is a 2^-44 fixed-point evaluation (inverse square
+   roots by Z.sqrt, floors); that it is within the comparison tolerance of the real-valued formula is
+   checked by the correspondence (|model - mdtraj| <= 1e-3 kcal/mol on every reported bond), not proved. *)
+Theorem ks_spec : forall p rs xyz oob, nondegenerate p rs xyz oob ->
+  kabsch_sander_frame p empty_nan rs xyz oob =
+  Some (map (fun d => slots_of (firstn 2 (ranked (map (fun a => (a, frame_energy p rs xyz oob d a))
+              (filter (eligible p xyz rs (frame_energy p rs xyz oob) d) (seq 0 (length rs)))))))
+            (seq 0 (length rs))).
+Proof. exact ks_spec_concrete. Qed.
+Print Assumptions ks_spec.
 
 (* ---------------------------------------------------------------- Kabsch-Sander hydrogen position *)
 (* as found: the result of a frame depends on data outside the frame (index -1) *)
@@ -168,3 +231,16 @@ Example bh_example :
   baker_hubbard (mkBH false false false (1, 10) (256, 1) (-1, 2)) ex_topo [ex_frame] = Ok [(0%nat, 1%nat, 3%nat)].
 Proof. vm_compute. reflexivity. Qed.
 Print Assumptions bh_example.
+
+(* the hypothesis of ks_spec is satisfiable: the three-residue witness frame is non-degenerate *)
+Example nondegenerate_example : nondegenerate (nominal h_fix) w_rs w_xyz (0, 0, 0).
+Proof.
+  intros d a Sd Sa.
+  assert (Hd : (d < 3)%nat).
+  { destruct (Nat.lt_ge_cases d 3) as [H | H]; [assumption|]. rewrite nth_overflow in Sd by exact H. discriminate. }
+  assert (Ha : (a < 3)%nat).
+  { destruct (Nat.lt_ge_cases a 3) as [H | H]; [assumption|]. rewrite nth_overflow in Sa by exact H. discriminate. }
+  destruct d as [|[|[|d]]]; [discriminate | | | lia];
+  (destruct a as [|[|[|a]]]; [discriminate | | | lia]); vm_compute; discriminate.
+Qed.
+Print Assumptions nondegenerate_example.
